@@ -413,3 +413,258 @@ def _analyse(P, tier='quick'):
         if not r['yield_paths']:
             raise AnalysisError('no path yields a record for %s' % X)
     return R, res
+
+
+# ---- line accounting (C03-R7) -------------------------------------------------------------------------------------------
+def _self_attr_target(t, first):
+    return t.attr if isinstance(t, ast.Attribute) and isinstance(t.value, ast.Name) and t.value.id == first else None
+
+
+def _bindings(fn_node):
+    """local name -> list of (stmt, value-or-None); value is the bound expression for a plain ``name = value``."""
+    out = {}
+    for n in walk_no_nested(fn_node):
+        if isinstance(n, ast.Assign):
+            for t in n.targets:
+                if isinstance(t, ast.Name):
+                    out.setdefault(t.id, []).append((n, n.value))
+                else:
+                    for x in ast.walk(t):
+                        if isinstance(x, ast.Name):
+                            out.setdefault(x.id, []).append((n, None))
+        elif isinstance(n, (ast.AugAssign, ast.AnnAssign)) and isinstance(n.target, ast.Name):
+            out.setdefault(n.target.id, []).append((n, None))
+        elif isinstance(n, (ast.For, ast.comprehension)):
+            for x in ast.walk(n.target):
+                if isinstance(x, ast.Name):
+                    out.setdefault(x.id, []).append((n, None))
+        elif isinstance(n, ast.NamedExpr) and isinstance(n.target, ast.Name):
+            out.setdefault(n.target.id, []).append((n, n.value))
+        elif isinstance(n, ast.withitem) and n.optional_vars is not None:
+            for x in ast.walk(n.optional_vars):
+                if isinstance(x, ast.Name):
+                    out.setdefault(x.id, []).append((n, None))
+    return out
+
+
+def _through_copies(expr, binds, depth=0):
+    """Follow single-assignment local copies: a Name bound exactly once by ``name = value`` stands for that value."""
+    while isinstance(expr, ast.Name) and depth < 6:
+        b = binds.get(expr.id, [])
+        if len(b) != 1 or b[0][1] is None:
+            break
+        expr = b[0][1]
+        depth += 1
+    return expr
+
+
+def _counter_writes(f, first):
+    """(stmt, attr, increment-expr-or-None, assigned-expr-or-None) for stores to attributes of self in ``f``."""
+    out = []
+    for n in walk_no_nested(f.node):
+        if isinstance(n, ast.AugAssign):
+            a = _self_attr_target(n.target, first)
+            if a is not None:
+                out.append((n, a, n.value if isinstance(n.op, ast.Add) else None, None))
+        elif isinstance(n, ast.Assign):
+            for t in n.targets:
+                a = _self_attr_target(t, first)
+                if a is None:
+                    continue
+                inc = None
+                v = n.value
+                if isinstance(v, ast.BinOp) and isinstance(v.op, ast.Add):
+                    if _self_attr_target(v.left, first) == a:
+                        inc = v.right
+                    elif _self_attr_target(v.right, first) == a:
+                        inc = v.left
+                out.append((n, a, inc, None if inc is not None else v))
+    return out
+
+
+def line_accounting_rule(P, rep, rid, R):
+    """The 'line' of a record is the reader's line counter at the section header, and the counter advances by exactly one per
+    header and by the number of lines of the raw content split on the section newline per content block.  Decided on the
+    syntax of the three functions that touch the counter (constructor, header function, content function), with callees
+    resolved through the imports and locals followed through single-assignment copies."""
+    hf, cf = R.header_fn, R.content_fn
+    if cf is None:
+        raise AnalysisError('no single content-reading function reachable from %s' % R.entry.short)
+    init = R.cls.find_method('__init__')
+    funcs = list(R.funcs) + ([init] if init is not None and init not in R.funcs else [])
+    writes = {}
+    for f in funcs:
+        ps = f.params()
+        if not ps or f.cls is None:
+            continue
+        for w in _counter_writes(f, ps[0]):
+            writes.setdefault(w[1], []).append((f,) + w)
+    cands = [a for a, ws in writes.items() if any(f is hf and inc is not None for f, _, _, inc, _ in ws)
+             and any(f is cf and inc is not None for f, _, _, inc, _ in ws)]
+    if len(cands) != 1:
+        # the counter the two functions share: an attribute both of them advance
+        cands2 = [a for a, ws in writes.items() if any(inc is not None for _, _, _, inc, _ in ws)]
+        raise AnalysisError('expected exactly one reader attribute advanced by both %s and %s (the line counter), found %s '
+                            '(attributes advanced anywhere: %s)' % (hf.short, cf.short, cands, sorted(cands2)))
+    ctr = cands[0]
+    rep.info('line counter: self.%s' % ctr)
+
+    def is_ctr(e, f):
+        return _self_attr_target(e, f.params()[0]) == ctr
+
+    # -- (a) who writes the counter
+    for f, stmt, a, inc, val in writes[ctr]:
+        if f is init:
+            if inc is None and isinstance(val, ast.Constant) and val.value == 0 and type(val.value) is int:
+                rep.ok(rid, 'counter starts at 0 in %s' % f.short)
+            else:
+                rep.violation(rid, 'counter-init', f.loc(stmt), 'the line counter self.%s is initialised with %s, not 0: every line '
+                              'number reported afterwards is shifted' % (ctr, norm(stmt)[:60]), path=[f.short])
+        elif f is not hf and f is not cf:
+            rep.violation(rid, 'counter-writer:%s' % f.short, f.loc(stmt), 'the line counter self.%s is also changed in %s (%s): the '
+                          'logical line of later sections no longer counts one per header plus the lines of each content block'
+                          % (ctr, f.short, norm(stmt)[:60]), path=[R.entry.short, f.short])
+    if init is None or not any(f is init for f, *_ in writes[ctr]):
+        raise AnalysisError('the line counter self.%s is not initialised in the constructor' % ctr)
+
+    def top_level_index(f, stmt):
+        for i, s in enumerate(f.node.body):
+            if s is stmt:
+                return i
+        return None
+
+    # -- (b) header: +1 exactly once on the way to a record; 'line' is the counter value from before the increment
+    hw = [(stmt, inc) for f, stmt, a, inc, val in writes[ctr] if f is hf]
+    binds = _bindings(hf.node)
+    if len(hw) != 1 or hw[0][1] is None:
+        rep.violation(rid, 'header-advance-count', hf.loc(), '%s changes the line counter %d times (%s): a header is one logical line'
+                      % (hf.short, len(hw), [norm(s)[:40] for s, _ in hw]), path=[hf.short])
+    else:
+        stmt, inc = hw[0]
+        inc_v = _through_copies(inc, binds)
+        idx = top_level_index(hf, stmt)
+        if not (isinstance(inc_v, ast.Constant) and inc_v.value == 1 and type(inc_v.value) is int):
+            rep.violation(rid, 'header-advance-amount', hf.loc(stmt), '%s advances the line counter by %s per header, not by 1'
+                          % (hf.short, norm(inc)[:50]), path=[hf.short])
+        elif idx is None:
+            rep.violation(rid, 'header-advance-conditional', hf.loc(stmt), '%s advances the line counter inside a conditional or loop '
+                          '(%s): not exactly once per header' % (hf.short, norm(stmt)[:50]), path=[hf.short])
+        else:
+            rep.ok(rid, 'header advances the counter by exactly 1 (%s)' % norm(stmt))
+            # records returned
+            recs = 0
+            for n in walk_no_nested(hf.node):
+                if not isinstance(n, ast.Return) or n.value is None:
+                    continue
+                v = _through_copies(n.value, binds)
+                if isinstance(v, ast.Constant) and v.value is None:
+                    continue
+                if isinstance(v, ast.Call) and isinstance(v.func, ast.Name) and v.func.id == 'dict' and not v.args \
+                        and P.resolve_name(hf.module, 'dict') is None and all(kw.arg for kw in v.keywords):
+                    lines = [kw.value for kw in v.keywords if kw.arg == 'line']
+                elif isinstance(v, ast.Dict):
+                    lines = [val for k, val in zip(v.keys, v.values) if isinstance(k, ast.Constant) and k.value == 'line']
+                else:
+                    raise AnalysisError('%s returns %s: not a record literal' % (hf.short, norm(n.value)[:50]))
+                if len(lines) != 1:
+                    raise AnalysisError('the record returned by %s has no single "line" entry' % hf.short)
+                recs += 1
+                lv = lines[0]
+                src = _through_copies(lv, binds)
+                ret_idx = top_level_index(hf, n)
+                if is_ctr(src, hf):
+                    # value of the counter: read where?  a local copy is read at its assignment, a direct read at the return
+                    if isinstance(lv, ast.Name):
+                        b = binds[lv.id][0][0]
+                        bi = top_level_index(hf, b)
+                        if bi is not None and bi < idx:
+                            rep.ok(rid, 'record line = counter before the header is counted (%s)' % norm(b))
+                        else:
+                            rep.violation(rid, 'record-line-late', hf.loc(b), 'the "line" of a record is read from the counter after '
+                                          '(or conditionally around) its increment (%s): records name the line after their header'
+                                          % norm(b)[:50], path=[hf.short])
+                    elif ret_idx is not None and ret_idx < idx:
+                        rep.ok(rid, 'record line = counter before the header is counted')
+                    else:
+                        rep.violation(rid, 'record-line-late', hf.loc(n), 'the "line" of a record is the counter after its increment: '
+                                      'records name the line after their header', path=[hf.short])
+                elif isinstance(src, ast.BinOp) and isinstance(src.op, ast.Sub) and is_ctr(src.left, hf) \
+                        and isinstance(src.right, ast.Constant) and src.right.value == 1 and (ret_idx is None or ret_idx > idx):
+                    rep.ok(rid, 'record line = counter - 1 after the increment')
+                else:
+                    rep.violation(rid, 'record-line-source', hf.loc(n), 'the "line" of a record is %s, not the reader\'s line counter '
+                                  'at the header' % norm(lv)[:50], path=[hf.short])
+            if recs == 0:
+                raise AnalysisError('%s returns no record' % hf.short)
+
+    # -- (c) content: + number of lines of the raw content on the section newline
+    cw = [(stmt, inc) for f, stmt, a, inc, val in writes[ctr] if f is cf]
+    binds = _bindings(cf.node)
+    split_fn = P.func('pydiffx.utils.text', 'split_lines')
+    if len(cw) != 1 or cw[0][1] is None:
+        rep.violation(rid, 'content-advance-count', cf.loc(), '%s changes the line counter %d times (%s)'
+                      % (cf.short, len(cw), [norm(s)[:40] for s, _ in cw]), path=[cf.short])
+        return
+    stmt, inc = cw[0]
+    if top_level_index(cf, stmt) is None:
+        rep.violation(rid, 'content-advance-conditional', cf.loc(stmt), '%s advances the line counter inside a conditional or loop (%s): '
+                      'some content blocks are not counted' % (cf.short, norm(stmt)[:50]), path=[cf.short])
+        return
+    v = _through_copies(inc, binds)
+    arg = None
+    if isinstance(v, ast.Call) and isinstance(v.func, ast.Name) and v.func.id == 'len' and len(v.args) == 1 and not v.keywords \
+            and P.resolve_name(cf.module, 'len') is None:
+        arg = _through_copies(v.args[0], binds)
+    call = None
+    if isinstance(arg, ast.Call):
+        r = P.resolve_call(cf, arg)
+        if isinstance(r, list) and r == [split_fn]:
+            call = arg
+    if call is None:
+        rep.violation(rid, 'content-advance-amount', cf.loc(stmt), '%s advances the line counter by %s, which is not the number of lines '
+                      'split_lines() cuts the raw content into on the section newline: where the two differ (decoded text, multi-byte '
+                      'newlines, a final unterminated line) the "line" of every later section and parse error is off'
+                      % (cf.short, norm(inc)[:60]), path=[cf.short])
+        return
+    ps = split_fn.params()
+    actual = {}
+    for i, a in enumerate(call.args):
+        if isinstance(a, ast.Starred) or i >= len(ps):
+            raise AnalysisError('split_lines call with unrecognised arguments: %s' % norm(call)[:60])
+        actual[ps[i]] = a
+    for kw in call.keywords:
+        if kw.arg is None:
+            raise AnalysisError('split_lines call with unrecognised arguments: %s' % norm(call)[:60])
+        actual[kw.arg] = kw.value
+    if len(ps) < 2 or ps[0] not in actual or ps[1] not in actual:
+        raise AnalysisError('split_lines call without data/newline arguments: %s' % norm(call)[:60])
+    data, nl = actual[ps[0]], actual[ps[1]]
+    stream = R.stream
+
+    def prior(name):
+        return [(s, val) for s, val in binds.get(name, []) if s.lineno < call.lineno]
+
+    def is_stream_read(e):
+        if not (isinstance(e, ast.Call) and isinstance(e.func, ast.Attribute) and e.func.attr == 'read'):
+            return False
+        recv = _through_copies(e.func.value, binds)
+        return _self_attr_target(recv, cf.params()[0]) == stream
+    ok_data = isinstance(data, ast.Name) and prior(data.id) and all(val is not None and is_stream_read(val) for _, val in prior(data.id))
+    if ok_data:
+        rep.ok(rid, 'content lines counted on the raw bytes read from the stream (%s)' % norm(call)[:70])
+    else:
+        rep.violation(rid, 'content-count-data', cf.loc(call), 'the lines counted for a content block are those of %s, which is not the '
+                      'raw content as read from the stream (stripped / decoded content has a different number of newline occurrences)'
+                      % norm(data)[:40], path=[cf.short])
+    def recoded(e):
+        # a newline that went through decode()/encode() in this function, or a literal: not the bytes utils.text computed
+        e = _through_copies(e, binds) if e is not None else None
+        return isinstance(e, ast.Constant) or (isinstance(e, ast.Call) and isinstance(e.func, ast.Attribute)
+                                               and e.func.attr in ('decode', 'encode'))
+    pr = prior(nl.id) if isinstance(nl, ast.Name) else []
+    ok_nl = bool(pr) and not any(recoded(val if val is not None else getattr(s, 'value', None)) for s, val in pr)
+    if ok_nl:
+        rep.ok(rid, 'content lines counted on the section newline as computed for the raw bytes (%s)' % norm(nl))
+    else:
+        rep.violation(rid, 'content-count-newline', cf.loc(call), 'the lines counted for a content block are split on %s, which is not '
+                      'the declared / detected newline as computed for the raw bytes (it is a literal, or was decoded / encoded before the split)' % norm(nl)[:40], path=[cf.short])
